@@ -106,7 +106,10 @@ def as_arg(x, d):
     """x + d keeping Python scalars Python scalars"""
     if isinstance(x, (float, complex)):
         return type(x)(x + d.reshape(())[()]) if not onp.iscomplexobj(d) or isinstance(x, complex) else x + complex(d)
-    return x + d
+    r = x + d
+    if isinstance(x, onp.ndarray) and x.ndim >= 2 and x.flags.f_contiguous and not x.flags.c_contiguous:
+        r = onp.asfortranarray(r)          # the displaced point is laid out as the point is (order="A" reads the layout)
+    return r
 
 
 def jd(f, x, d, exact, step=1.0):
@@ -962,6 +965,8 @@ def main():
     clean = [c for c in cs if (not only or c.prim in only)]
     bad_keys = {(b["primitive"], b["configuration"]) for b in out["bad"]}
     clean = [c for c in clean if (c.prim, c.tag) not in bad_keys]
+    # (order="A" makes the FUNCTION depend on the memory layout of its argument: such rows are not re-laid-out)
+    clean = [c for c in clean if "order='A'" not in c.tag and "('A')" not in c.tag]
     frac2 = 0.5 if cfg.get("tier") == "thorough" else 0.15
     second = [c for c in clean if rng.random() < frac2]
     rng.shuffle(second)
